@@ -20,7 +20,7 @@ if fresh or not os.path.isdir(V):
     os.makedirs(farm,exist_ok=True)
     sh(f"rsync -a --delete --exclude target --exclude /harness/gen --exclude /harness/run --exclude .git --exclude /replays /verif/ {V}/")
     sh(f"rsync -a --delete --exclude target /repo/ {R}/")
-    sh(f"sed -i 's#\"/repo/embedded-cli\"#\"{R}/embedded-cli\"#' {V}/harness/vcheck/Cargo.toml {V}/harness/vmodel/Cargo.toml {V}/harness/vsession/Cargo.toml")
+    sh('sed -i \'s#"/repo/embedded-cli"#"' + R + '/embedded-cli"#\' ' + V + '/harness/*/Cargo.toml')
     assert sh(f'git -C {R} status --porcelain').stdout.strip()=='', "farm repo not clean"
 env=dict(os.environ, VERIF_REPO=R, CARGO_NET_OFFLINE='true')
 for d,ids in jobs:
